@@ -9,25 +9,123 @@ from . import ibmrun, c05
 from .common import close
 
 RULE = ("per module: random configuration x 0..8 particles with ages placed exactly at, one step below and above "
-        "each threshold (lifespan, 170 degree-days, 2^30 s), dt from 1 s to 1 h, temperatures -1.5..25; single "
-        "updates and 2..6-step histories in which dead particles stay in the arrays; plus lice partition "
-        "experiments (one step of T vs k steps of T/k). Non-trivial: >=1 particle.")
-ASSUMPTIONS = ["state.dt equals the configured dt in most cases (LADiM sets state.dt = solver step); cases with "
-               "state.dt != dt check that age follows state.dt"]
+        "each threshold (lifespan, 170 degree-days, 2^30 s), dt from 1 s to 1 h (vps, lice, shrimp: up to > 1 day; "
+        "integer dt ~30%), temperatures -1.5..25; in ~half of the cases ~35% of the particles are already dead when "
+        "the update is called (young and old ones); in ~20% state.dt is 2x or 1/2 the configured dt (every module); "
+        "lifespans 0 / 0.0 / integer / equal to dt / 2 dt / 1e9 with ages around them (chemicals ~30%, sedimentation "
+        "and mine ~20%); vps: dt 1 s..1 day and ages 2^30-dt, 2^30-dt-1, 2^30-2dt, 2^30, 2^30+1, 2^29, 1e9, uniform; "
+        "single updates and 2..6-step histories (all nine modules, vps included) in which dead particles stay in the "
+        "arrays; lice partition experiments: one step of T vs k equal steps (T 1 h..250000 s, k 2..24, also T/k not "
+        "dividing a day) and vs an unequal partition with a re-created IBM per step; mine with the death-record file "
+        "(`output_file`) switched on. Non-trivial: >=1 particle.")
+ASSUMPTIONS = ["state.dt equals the configured dt in most cases (LADiM sets state.dt = solver step); in the cases with "
+               "state.dt != dt every module is judged against the clock it reads today (sedimentation, mine, lice "
+               "age/days, larvae, saithe: state.dt; chemicals, egg, shrimp, vps, lice mortality: configured dt)",
+               "chemicals without a lifespan: age is not maintained (Lean obligation C07.chem_age_untouched) and nobody "
+               "dies of age",
+               "degree-day modules: the temperature is the ambient one at the particle's position when the update is "
+               "called (stub field t0 + tz*Z, exact)"]
 MODS = ["chemicals", "sedimentation", "mine", "salmon_lice", "egg", "larvae", "saithe", "shrimp", "vps"]
+NO_DEATH = ("egg", "larvae", "saithe", "shrimp")      # modules without a lifespan / biological age limit
+
+
+# ------------------------------------------------------------------------------------------ C07's own input classes
+def vary(rng, name, case):
+    """post-processes a case of the shared generator (only optional keys / values inside the quantifier)"""
+    n = len(case["x"])
+    dt = case["dt"]
+    # particles that are already dead when the update is called (killed earlier, kept in the arrays)
+    if n and rng.random() < 0.5:
+        case["alive0"] = np.array([rng.random() >= 0.35 for _ in range(n)])
+    # the state's clock differs from the configured time step
+    if rng.random() < 0.2:
+        s = rng.choice([2 * dt, dt / 2])
+        if name in ("sedimentation", "mine", "salmon_lice", "larvae", "saithe"):
+            case["sdt"] = s
+        else:
+            case["state_dt"] = s
+    if name == "chemicals" and rng.random() < 0.3:
+        L = rng.choice([0, 0.0, 3600, dt, 2 * dt, 1e9])
+        case["lifespan"] = L
+        case["age"] = np.array([rng.choice([0.0, 50.0, L - dt, L, L + 1, L - 2 * dt, 1e5]) for _ in range(n)], dtype=float)
+    if name in ("sedimentation", "mine") and rng.random() < 0.2:
+        L = rng.choice([0, 0.0, 3600, dt, 2 * dt])
+        sdt = case["sdt"]
+        case["lifespan"] = L
+        case["age"] = np.array([rng.choice([0.0, L - sdt, L, L + 1, L - 2 * sdt, L - dt]) for _ in range(n)], dtype=float)
+    if name == "vps" and rng.random() < 0.75:
+        dt = case["dt"] = rng.choice([1.0, 60.0, 600.0, 3600.0, 86400.0])
+        if "state_dt" in case:
+            case["state_dt"] = rng.choice([2 * dt, dt / 2])
+        M = 2.0 ** 30
+        case["age"] = np.array([rng.choice([0.0, 100.0, M - dt, M - dt - 1, M - 2 * dt, M, M + 1, 2.0 ** 29, 1e9,
+                                            float(rng.randrange(0, 2 ** 31))]) for _ in range(n)], dtype=float)
+    return case
+
+
+def _gen(name):
+    base = ibmrun.MODULES[name][0]
+
+    def g(rng, n=None, **kw):
+        return vary(rng, name, base(rng, n=n, **kw) if kw else base(rng, n))
+    return g
+
+
+GENS = {name: _gen(name) for name in MODS}
+
+
+def tags(ctx, name, case, res):
+    b = res["before"]
+    if "alive" in b and res["n"]:
+        dead = ~np.asarray(b["alive"], bool)
+        if dead.any():
+            ctx.branch("%s.dead_before_update" % name, int(dead.sum()))
+    clock = case["state_dt"] if "state_dt" in case else case.get("sdt", case["dt"])
+    if clock != case["dt"]:
+        ctx.branch("%s.state_dt_differs" % name)
+    if name in ("chemicals", "sedimentation", "mine") and case["lifespan"] is not None:
+        if case["lifespan"] == 0:
+            ctx.branch("%s.lifespan_zero" % name)
+        if isinstance(case["lifespan"], int):
+            ctx.branch("%s.lifespan_int" % name)
+    if name == "vps" and res["n"]:
+        a = res["after"]["age"]
+        ctx.branch("vps.age_lands_on_2^30", int(np.sum(a == 2.0 ** 30)))
+        ctx.branch("vps.age_lands_just_below_2^30", int(np.sum(a == 2.0 ** 30 - 1)))
+        ctx.branch("vps.age_between_1e9_and_2^30", int(np.sum((a >= 1e9) & (a < 2.0 ** 30 - 1))))
 
 
 def oracle(ctx, name, case, res):
     b, a, n = res["before"], res["after"], res["n"]
     site = "ladim_plugins/%s/ibm.py" % name
     dt = case["dt"]
+    tags(ctx, name, case, res)
     for i in range(n):
         cs = dict(module=name, case=ibmrun.case_summary(case), particle=i,
                   before={k: v[i] for k, v in b.items()}, after={k: v[i] for k, v in a.items()})
         if "alive" in a and "alive" in b:
             ctx.oracle((not a["alive"][i]) or b["alive"][i], "C07.%s.revived" % name, site,
                        "dead particle alive again", cs)
+        if name in NO_DEATH and "alive" in a and "alive" in b and not (name == "saithe" and case.get("spread")):
+            # no lifespan and no biological age limit in these modules: nobody is marked dead by the update
+            # (saithe with extra_spreading also retires larvae that leave the grid: not this property's subject)
+            ctx.oracle(bool(a["alive"][i]) == bool(b["alive"][i]), "C07.%s.no_death" % name, site,
+                       "alive %r -> %r in a module without age limit" % (b["alive"][i], a["alive"][i]), cs)
+        if name in ("egg", "larvae", "saithe", "salmon_lice"):
+            # degree-days = temperature x days: the temperature is the ambient one at the particle's position when the
+            # update is called (the stub field t0 + tz*Z is evaluated with the same two operations: exact)
+            want_t = float(case["env"].field(case["x"][i], case["y"][i], b["z"][i], "temp"))
+            ctx.oracle(float(a["temp"][i]) == want_t, "C07.%s.ambient_temperature" % name, site,
+                       "temp used %r, ambient temperature at Z=%r is %r" % (a["temp"][i], b["z"][i], want_t), cs)
         if name == "chemicals":
+            if case["lifespan"] is None:
+                # no lifespan configured: nobody dies of age, and the age variable is not maintained
+                # (C07.chem_age_untouched); with horizontal diffusion a particle may still leave the grid
+                if case["horz"] is None:
+                    ctx.oracle(bool(a["alive"][i]) == bool(b["alive"][i]), "C07.chemicals.no_lifespan_no_death", site,
+                               "alive %r -> %r without a lifespan" % (b["alive"][i], a["alive"][i]), cs)
+                ctx.oracle(a["age"][i] == b["age"][i], "C07.chemicals.age_untouched_without_lifespan", site,
+                           "age %r -> %r without a lifespan" % (b["age"][i], a["age"][i]), cs)
             if case["lifespan"] is not None:
                 ctx.oracle(a["age"][i] == b["age"][i] + dt, "C07.chemicals.age_advance", site,
                            "age %r -> %r, dt=%r" % (b["age"][i], a["age"][i], dt), cs)
@@ -101,9 +199,113 @@ def lice_partition(ctx):
                        "T=%r: %r vs exp(-0.17 T/86400)" % (T, sup[1][i]), dict(T=T, super0=case["super"][i]))
 
 
+def _split(rng, T, k):
+    """an unequal partition of T into k positive step lengths (whole seconds; the last one takes the remainder)"""
+    cuts = sorted(rng.sample(range(1, int(T)), k - 1))
+    ds = [float(b - a) for a, b in zip([0] + cuts, cuts + [int(T)])]
+    return ds
+
+
+def lice_partition_general(ctx):
+    """the same, for time spans and step lengths that do not divide a day, spans longer than a day, and UNEQUAL
+    partitions (a run restarted with another time step: the IBM is re-created for each step length, the state is
+    carried over).  Tolerance 1e-12 (relative): a product of k <= 24 correctly rounded factors exp(-0.17 d/86400)
+    differs from exp(-0.17 T/86400) by a few ulp of libm's exp and k roundings (~1e-15)."""
+    site = "ladim_plugins/salmon_lice/ibm.py"
+    for _ in range(ctx.n(30, 400)):
+        T = ctx.rng.choice([10000.0, 100000.0, 250000.0, 86400.0, 3600.0, 7000.0])
+        k = ctx.rng.choice([2, 3, 5, 7, 9, 11, 24])
+        unequal = ctx.rng.random() < 0.6
+        ds = _split(ctx.rng, T, k) if unequal else [T / k] * k
+        case = ibmrun.lice_case(ctx.rng, n=3)
+        if ctx.rng.random() < 0.4:
+            case["alive0"] = np.array([ctx.rng.random() < 0.5 for _ in range(3)])
+        sup = {}
+        for label, steps in (("one", [T]), ("many", ds)):
+            state = None
+            cc = dict(case); cc["D"] = 0.0
+            for d in steps:
+                cc = dict(cc); cc["dt"] = d; cc["sdt"] = d; cc["int_dt"] = False
+                if state is not None:
+                    state.dt = d
+                res = ibmrun.lice_run(cc, ctx.sub_seed(), None, None, ibm=None, state=state)   # fresh IBM: its own dt
+                state = res["state"]
+                cc = c05.refresh_case("salmon_lice", cc, res)
+            sup[label] = np.array(state["super"]).copy()
+        ctx.case(key=("lice_partition_general", T, tuple(ds), repr(case["super"].tolist())), nontrivial=True)
+        ctx.branch("lice.partition.unequal" if unequal else "lice.partition.equal_general")
+        if T > 86400:
+            ctx.branch("lice.partition.longer_than_a_day")
+        if any(86400 % d for d in ds):
+            ctx.branch("lice.partition.step_not_dividing_a_day")
+        for i in range(3):
+            cs = dict(T=T, steps=ds, super0=case["super"][i], alive0=None if "alive0" not in case else bool(case["alive0"][i]))
+            ctx.oracle(close(sup["one"][i], sup["many"][i], 1e-12), "C07.salmon_lice.partition_independent", site,
+                       "T=%r in 1 step: %r ; in steps %r: %r" % (T, sup["one"][i], ds, sup["many"][i]), cs)
+            ctx.oracle(close(sup["many"][i], case["super"][i] * math.exp(-0.17 * T / 86400), 1e-12),
+                       "C07.salmon_lice.survival_value", site,
+                       "steps %r: %r vs super0*exp(-0.17 T/86400)=%r" % (ds, sup["many"][i],
+                                                                         case["super"][i] * math.exp(-0.17 * T / 86400)), cs)
+
+
+NC_ATTRS = dict(pid=dict(ncformat="i4", long_name="particle identifier"),
+                age=dict(ncformat="f8", long_name="age at death", units="s"),
+                X=dict(ncformat="f8", long_name="grid X"), Y=dict(ncformat="f8", long_name="grid Y"))
+
+
+def mine_death_record(ctx):
+    """mine with the separate death-record file switched on (`ibm.output_file`, variables of `output_instance`):
+    the ageing / death oracles hold as without it, and a particle that dies in an update (of age or buried without
+    resuspension) is on record afterwards with its age, while a particle that is alive is not."""
+    import os, tempfile, netCDF4
+    site = "ladim_plugins/mine/ibm.py"
+    gen = GENS["mine"]
+    with tempfile.TemporaryDirectory(prefix="c07mine") as tmp:
+        for h in range(ctx.n(12, 150)):
+            case = gen(ctx.rng, n=ctx.rng.randrange(1, 7))
+            case["land"] = "freeze"
+            fname = os.path.join(tmp, "dead_%d.nc" % h)
+            case["output_file"] = fname
+            case["output_instance"] = ["pid", "age", "X", "Y"]
+            case["nc_attributes"] = NC_ATTRS
+            ibm = None; state = None
+            nrec = 0
+            for s in range(ctx.rng.randrange(1, 5)):
+                res = ibmrun.mine_run(case, ctx.sub_seed(), None, ibmrun.tail_injector(ctx.rng, 0.1), ibm=ibm, state=state)
+                ibm, state = res["ibm"], res["state"]
+                if hasattr(state, "timestep"):
+                    state.timestep = state.timestep + 1
+                ctx.case(key=("mine", "death_record", h, s, repr(ibmrun.case_summary(case))), nontrivial=True)
+                ctx.branch("mine.death_record_file")
+                oracle(ctx, "mine", case, res)
+                with netCDF4.Dataset(fname) as ds:
+                    pid = np.array(ds.variables["pid"][:]).astype(int)
+                    age = np.array(ds.variables["age"][:]).astype(float)
+                new_pid, new_age = pid[nrec:], age[nrec:]
+                nrec = len(pid)
+                b, a = res["before"], res["after"]
+                spid = np.asarray(state.pid).astype(int)
+                for i in range(res["n"]):
+                    cs = dict(module="mine", case=ibmrun.case_summary(case), particle=i, step=s,
+                              recorded_pid=new_pid.tolist(), recorded_age=new_age.tolist(),
+                              before={k: v[i] for k, v in b.items()}, after={k: v[i] for k, v in a.items()})
+                    on = new_pid == spid[i]
+                    if b["alive"][i] and not a["alive"][i]:
+                        ctx.branch("mine.death_recorded")
+                        ctx.oracle(on.any() and bool(np.any(new_age[on] == a["age"][i])), "C07.mine.death_on_record", site,
+                                   "particle pid=%d died at age %r; this update recorded pids %r ages %r"
+                                   % (spid[i], a["age"][i], new_pid.tolist(), new_age.tolist()), cs)
+                    if a["alive"][i]:
+                        ctx.oracle(not on.any(), "C07.mine.alive_on_death_record", site,
+                                   "particle pid=%d is alive but was recorded as dead" % spid[i], cs)
+                case = c05.refresh_case("mine", case, res)
+
+
 def run(ctx):
-    c05.run(ctx, modules=MODS, oracle=oracle)
+    c05.run(ctx, modules=MODS, oracle=oracle, gens=GENS, hist_extra=("vps",))
     lice_partition(ctx)
+    lice_partition_general(ctx)
+    mine_death_record(ctx)
 
 
 def replay(payload):
